@@ -497,8 +497,12 @@ func (t *Transport) RoundTrip(req *http.Request) (*http.Response, error) {
 // build turns a wire-level response into what net/http's client transport would hand
 // to its caller.
 func (t *Transport) build(req *http.Request, wr *Response) *http.Response {
+	statusText := http.StatusText(wr.Status)
+	if statusText == "" {
+		statusText = "status code " + strconv.Itoa(wr.Status) // what net/http's server writes for codes without a text
+	}
 	resp := &http.Response{
-		Status:     fmt.Sprintf("%d %s", wr.Status, http.StatusText(wr.Status)),
+		Status:     fmt.Sprintf("%d %s", wr.Status, statusText),
 		StatusCode: wr.Status,
 		Proto:      "HTTP/1.1",
 		ProtoMajor: 1,
